@@ -136,6 +136,27 @@ fn sequential(ctx: &Ctx, p: &Proto, b: Backend, writer: Side) {
         ops_t.push(Op::TWrite { side: writer, plen: 30 + k, cap: Cap::Roomy });
         ops_s.push(Op::SWrite { side: writer, nonce: n, plen: 30 + k, cap: Cap::Roomy });
     }
+    // after manual rekeys (a different key per direction, installed through each of the three entry points)
+    // and after automatic rekeys the two modes must still agree: the session keys are the same function of
+    // the same calls
+    for (k, rk) in [
+        Op::RekeyInitManual { side: writer, k: 1 },
+        Op::RekeyRespManual { side: writer, k: 2 },
+        Op::RekeyManual { side: writer, i: Some(3), r: Some(4) },
+        Op::RekeyManual { side: writer, i: None, r: Some(5) },
+        Op::RekeyOut { side: writer },
+        Op::RekeyIn { side: writer },
+    ]
+    .into_iter()
+    .enumerate()
+    {
+        let n = 100 + k as u64;
+        ops_t.push(rk.clone());
+        ops_s.push(rk);
+        ops_t.push(Op::SetSendNonce { side: writer, n });
+        ops_t.push(Op::TWrite { side: writer, plen: 50 + k, cap: Cap::Roomy });
+        ops_s.push(Op::SWrite { side: writer, nonce: n, plen: 50 + k, cap: Cap::Roomy });
+    }
     // the largest payload
     ops_t.push(Op::SetSendNonce { side: writer, n: 77 });
     ops_t.push(Op::TWrite { side: writer, plen: 65519, cap: Cap::Roomy });
